@@ -14,6 +14,8 @@ R11.4 (K4) on_open_substream: for an unknown peer, a `Closed` peer and a `Valida
       {initiate: dial Ok + state Dialing / open_substream Ok or pending reuse + state OutboundInitiated} or
       {report_notification_stream_open_failure}; on_dial_failure / on_substream_open_failure / on_connection_closed report the
       failure for a user-initiated attempt (Dialing, OutboundInitiated)
+R11.6 (K5) connectivity bookkeeping of a pending validation (ValidationPending{Open|Closed}) in on_connection_closed /
+      on_connection_established / on_validation_result
 R11.5 (K2) inbound acceptance: HandshakeService::send_handshake is reached only over ValidationResult::Accept or over the
       `auto_accept && outbound != Closed` edges; report_inbound_substream (validation request) only when not auto-accepted
 Not decided: the event grammar over all interleavings of two real instances; arms the code marks debug_assert!(false).
@@ -314,8 +316,55 @@ def r11_5(ctx, fx):
     ctx.anchor("R11.5", "send_handshake call sites", n, 3, cfg=fx.cfg)
 
 
+def r11_6(ctx, fx):
+    """connectivity bookkeeping of a pending validation: on_connection_closed keeps a peer only as ValidationPending{Closed};
+    on_connection_established turns ValidationPending into {Open}; a validation answered for {Open} leaves the peer Closed
+    (re-usable), for {Closed} removes it"""
+    fn = ctx.fn(fx, NP + "on_connection_closed::{closure#0}", "R11.6")
+    if fn is not None:
+        ins = [c for c in fn.calls(r"HashMap(<.*>)?::insert$") if ".peers" in fn.origin(c.args[0])]
+        ctx.anchor("R11.6", "on_connection_closed: peers.insert", len(ins), 2, cfg=fx.cfg)
+        for i, c in enumerate(ins):
+            ok = False
+            why = "inserted context is not a literal"
+            for l in slice_locals(fn, c.args[2]):
+                d = fn.single_def(l)
+                if d and d[1] == "assign" and d[2]["rv"]["r"] == "agg" and d[2]["rv"]["adt"].endswith("notification::PeerContext"):
+                    sh = fn.shape(d[2]["rv"]["ops"][0])
+                    ok = sh == {"ValidationPending.Closed"}
+                    why = "state stored: %s" % sorted(sh)
+            ctx.ob("R11.6", "on_connection_closed/kept-peer#%d-is-ValidationPending{Closed}" % i, ok, site=fn.site(c.node), cfg=fx.cfg,
+                   detail="after the connection is gone the only thing remembered is a pending validation with connectivity Closed; " + why)
+    fn = ctx.fn(fx, NP + "on_connection_established::{closure#0}", "R11.6")
+    if fn is not None:
+        for sw, e in matched_edges(fn, "ValidationPending", moved_only=True):
+            if set(e) & set(fn.variant_edges(sw, "Open")):
+                continue
+            r = fn.reach([n for n, l in fn.succs(sw[0]) if l in e])
+            st = [n for n in state_assigns(fn, "ValidationPending") if n in r]
+            shapes = set()
+            for n in st:
+                shapes |= fn.shape(fn.stmt(n)["rv"]["o"]) if fn.stmt(n)["rv"]["r"] == "use" else {"?"}
+            ctx.ob("R11.6", "on_connection_established/ValidationPending-becomes-{Open}", shapes == {"ValidationPending.Open"}, site=fn.site(sw[0]), cfg=fx.cfg, detail=str(sorted(shapes)))
+    fn = ctx.fn(fx, NP + "on_validation_result::{closure#0}", "R11.6")
+    if fn is not None:
+        csw = [sw for sw in fn.discr_switches() if sw[2] and sw[2].endswith("notification::ConnectionState")]
+        ctx.anchor("R11.6", "on_validation_result: match on ConnectionState", len(csw), 1, cfg=fx.cfg)
+        for sw in csw[:1]:
+            ro = fn.reach([n for n, l in fn.succs(sw[0]) if l in fn.variant_edges(sw, "Open")])
+            rc = fn.reach([n for n, l in fn.succs(sw[0]) if l in fn.variant_edges(sw, "Closed")])
+            closed = state_assigns(fn, "Closed")
+            rem = [c.node for c in fn.calls(r"HashMap(<.*>)?::remove$") if ".peers" in fn.origin(c.args[0])]
+            # the two arms join afterwards, so compare what is reachable before the join: first statement sets
+            only_o = [n for n in closed if n in ro and n not in rc]
+            only_c = [n for n in rem if n in rc and n not in ro]
+            ctx.ob("R11.6", "on_validation_result/pending{Open}=>peer-Closed,pending{Closed}=>peer-removed", bool(only_o) and bool(only_c), site=fn.site(sw[0]), cfg=fx.cfg,
+                   detail="Closed assignments only on the Open edge: %d; removals only on the Closed edge: %d" % (len(only_o), len(only_c)))
+
+
 def run(ctx):
     fx = ctx.facts("default")
+    r11_6(ctx, fx)
     r11_1(ctx, fx)
     r11_2(ctx, fx)
     r11_3(ctx, fx)
